@@ -164,7 +164,7 @@ func zzC17Bit(img []byte, bs, idx int) bool {
 
 // Group 3: one operation from an arbitrary invariant state on the real in-memory buffer
 func zzC17Step() {
-	bs := []int{1, 2, 4, 8}[vChoose("bsIdx", vParam("NBS3"))]
+	bs := []int{1, 2, 4, 8}[vParam("BSMIN")+vChoose("bsIdx", vParam("NBS3")-vParam("BSMIN"))]
 	segs := vConcrete(vRange("segments", 1, vParam("SEGS")))
 	extra := vChoose("oversize", 2) * 3
 	segSize := (8*bs + 1) * bs
@@ -297,6 +297,13 @@ func zzC17Reopen() {
 	total := segs*segSize + extra
 	ib := NewInMemBytes(total)
 	img := vBytes("image", total)
+	// headers of all but the last segment take one of a few concrete values (entirely free, full, half), the last
+	// segment's header and all data bytes stay symbolic (the counting loop forks on every symbolic header bit)
+	for s := 0; s < segs-1; s++ {
+		for p := 0; p < bs; p++ {
+			img[s*segSize+p] = []byte{0x00, 0xFF, 0x0F}[vChoose("hdr", 3)]
+		}
+	}
 	copy(*ib, img)
 	bks, err := NewBlocks(bs, ib, fit)
 	vAssert(err == nil && bks != nil, "NewBlocks rejects a valid geometry")
